@@ -17,7 +17,7 @@ T_RefinementImplies(e) == e.cls \in {"Surface", "Material2D"} =>
    /\ ToSet(e.basis) \cap ToSet(e.outliers) = {}
    /\ Cardinality(ToSet(e.basis)) = Len(e.basis) /\ Cardinality(ToSet(e.outliers)) = Len(e.outliers)
    /\ Covered(Len(e.basis), e.n, e.cov_num, e.cov_den)
-T_Idempotent(e) == e.cls_again = e.cls
+T_Idempotent(e) == e.cls_again = e.cls /\ e.cls_same_object = e.cls /\ e.params_untouched
 \* a classifier object with a history (the same geometry under another pbc pattern just before) gives the same class
 T_HistoryIndependent(e) == e.cls_hist = e.cls
 \* the recorded run is an instance of the model's dispatch (binding of the design model; mismatch = drift)
